@@ -150,13 +150,15 @@ Definition dbtree_matches (es : list entry) (o : obs) (listing : list (name * na
 Inductive case :=
 | CDbTree (es : list entry) (o : obs) (listing : list (name * nat))
 | CDbOpen (size : Z) (ext : bool) (tocoff : Z) (tail51 : bytes) (g51 g47 g46 : gzres) (o : obs)
-| CDbChunk (chunks : list chunk) (size off : Z) (o : obs).
+| CDbChunk (chunks : list chunk) (size off : Z) (o : obs)
+| CDbOracle (o : obs).
 
 Definition case_ok (c : case) : bool :=
   match c with
   | CDbTree es o l => dbtree_matches es o l
   | CDbOpen size ext tocoff t g51 g47 g46 o => open_matches size ext tocoff t g51 g47 g46 o
   | CDbChunk cs size off o => db_chunk_matches cs size off o
+  | CDbOracle o => oracle_only o
   end.
 
 Fixpoint mismatches_from (n : nat) (cs : list case) : list nat :=
